@@ -589,7 +589,7 @@ pub fn run(env: &Env, rep: &Report) {
             return;
         }
     };
-    let count = env.tier.pick(500, 12_000);
+    let count = env.tier.pick(1_500, 20_000);
     let res = match run_python(env, &so_dir, count, None) {
         Ok(v) => v,
         Err(e) => {
